@@ -29,6 +29,8 @@ class Module(object):
             raise AnalysisError("cannot parse %s: %s" % (relpath, err))
         # private helpers that the reference tree does not have are inlined into their callers (see normalize.py)
         self.inlined = normalize.inline_new_helpers(self.tree, name) if inline and os.environ.get("VERIF_NO_INLINE") != "1" else []
+        if inline and os.environ.get("VERIF_NO_INLINE") != "1":
+            self.unrolled_tables = normalize.unroll_constant_tables(self.tree)
         A.set_parents(self.tree, self)
         self._defs = None
 
